@@ -15,6 +15,7 @@ package main
 //	GENPROG     <file> <decl>                  = the printed translation                  model: print (canonical declaration of that name)
 //	@GENPROGDEF <file> <decl> <text>           = ok      context line: the driver parses and keeps the TRANSLATED declaration
 //	GENPROG     <file> <decl> eqb              = same    model: gpdecl_eqb <translated> <canonical>
+//	GENPROG     types                          = ok      the field / method table of the protogen objects, checked through package reflect
 //
 // and, written by the gen engine next to its GENFEAT / GENFIELD / GENONEOF lines (same case file, after the @GENPROGDEF lines):
 //
@@ -46,6 +47,7 @@ import (
 	"go/types"
 	"os"
 	"path/filepath"
+	"reflect"
 	"sort"
 	"strconv"
 	"strings"
@@ -84,9 +86,9 @@ type gpN struct {
 	isList bool
 }
 
-func gpA(s string) *gpN       { return &gpN{atom: s} }
-func gpQ(s string) *gpN       { return &gpN{atom: s, quoted: true} }
-func gpL(items ...*gpN) *gpN  { return &gpN{list: items, isList: true} }
+func gpA(s string) *gpN      { return &gpN{atom: s} }
+func gpQ(s string) *gpN      { return &gpN{atom: s, quoted: true} }
+func gpL(items ...*gpN) *gpN { return &gpN{list: items, isList: true} }
 func gpH(h string, items ...*gpN) *gpN {
 	return &gpN{list: append([]*gpN{gpA(h)}, items...), isList: true}
 }
@@ -1316,6 +1318,7 @@ func engineGenProg(c config, o *out) {
 		return
 	}
 	gpEmitTranslation(o, true)
+	o.kase("GENPROG", []string{"types"}, gpCheckTypes())
 }
 
 // ---- the lines the gen engine writes next to GENFEAT / GENFIELD / GENONEOF ------------------------------------------------------------
@@ -1746,4 +1749,71 @@ func (h *gpHook) rewriteLine(o *out, r *genReq, pl *protogen.Plugin, ob *gpRewri
 	o.kase("GENPROGRUN", []string{"REWRITE", gpParams(r.param).String(), gpFilesSexp(pl, true, ob.observed).String()}, strings.Join(ob.parts, ""))
 	o.count("genprog/rewrite")
 	o.hist["genprog/rewrite_messages"] += len(ob.parts)
+}
+
+// gpCheckTypes: the table gpFieldKind and the descriptor methods the forms rely on, compared with the real declarations of protogen /
+// protoreflect through package reflect (the translator itself never sees types)
+func gpCheckTypes() string {
+	want := map[string]reflect.Type{"plugin": reflect.TypeOf(protogen.Plugin{}), "file": reflect.TypeOf(protogen.File{}), "msg": reflect.TypeOf(protogen.Message{}),
+		"field": reflect.TypeOf(protogen.Field{}), "oneof": reflect.TypeOf(protogen.Oneof{})}
+	elem := map[string]reflect.Type{"slice:file": reflect.TypeOf(&protogen.File{}), "slice:msg": reflect.TypeOf(&protogen.Message{}),
+		"slice:field": reflect.TypeOf(&protogen.Field{}), "slice:oneof": reflect.TypeOf(&protogen.Oneof{})}
+	var kinds []string
+	for k := range gpFieldKind {
+		kinds = append(kinds, k)
+	}
+	sort.Strings(kinds)
+	for _, k := range kinds {
+		var names []string
+		for f := range gpFieldKind[k] {
+			names = append(names, f)
+		}
+		sort.Strings(names)
+		for _, f := range names {
+			sf, ok := want[k].FieldByName(f)
+			if !ok {
+				return "no field " + k + "." + f
+			}
+			switch fk := gpFieldKind[k][f]; fk {
+			case "bool":
+				if sf.Type.Kind() != reflect.Bool {
+					return k + "." + f + " is " + sf.Type.String()
+				}
+			case "str":
+				if sf.Type.Kind() != reflect.String {
+					return k + "." + f + " is " + sf.Type.String()
+				}
+			default:
+				if sf.Type.Kind() != reflect.Slice || sf.Type.Elem() != elem[fk] {
+					return k + "." + f + " is " + sf.Type.String()
+				}
+			}
+		}
+	}
+	for _, d := range []struct {
+		k string
+		t reflect.Type
+		m []string
+	}{{"msg", reflect.TypeOf((*protoreflect.MessageDescriptor)(nil)).Elem(), []string{"FullName", "IsMapEntry"}},
+		{"field", reflect.TypeOf((*protoreflect.FieldDescriptor)(nil)).Elem(), []string{"FullName"}},
+		{"oneof", reflect.TypeOf((*protoreflect.OneofDescriptor)(nil)).Elem(), []string{"FullName", "IsSynthetic"}}} {
+		sf, ok := want[d.k].FieldByName("Desc")
+		if !ok || sf.Type != d.t {
+			return d.k + ".Desc is not " + d.t.String()
+		}
+		for _, m := range d.m {
+			mt, ok := d.t.MethodByName(m)
+			if !ok || mt.Type.NumIn() != 0 || mt.Type.NumOut() != 1 {
+				return d.k + ".Desc." + m
+			}
+			out := mt.Type.Out(0).Kind()
+			if (m == "FullName" && out != reflect.String) || (m != "FullName" && out != reflect.Bool) {
+				return d.k + ".Desc." + m + " returns " + mt.Type.Out(0).String()
+			}
+		}
+	}
+	if reflect.TypeOf(protoreflect.FullName("")).Kind() != reflect.String {
+		return "protoreflect.FullName is no string type"
+	}
+	return "ok"
 }
